@@ -48,6 +48,10 @@ Fixpoint join (sep : string) (l : list string) : string :=
   | x :: r => (x ++ sep ++ join sep r)%string
   end.
 
+(* s in (a, b, c) for strings *)
+Fixpoint mem_str (s : string) (l : list string) : bool :=
+  match l with [] => false | x :: r => (s =? x)%string || mem_str s r end.
+
 (* mapping a fallible function over a list, left to right *)
 Fixpoint map_res {A B} (f : A -> res B) (l : list A) : res (list B) :=
   match l with
